@@ -611,6 +611,11 @@ func countedReadDiscardOK(p *Program, fn *ssa.Function, call ssa.CallInstruction
 		if ev == nil || ev.Nil || (ev.Unk && !ev.NonNil) {
 			return false, ""
 		}
+		// the error of the read was thrown away, so nothing is known about WHY the byte is missing: reporting the
+		// end-of-input sentinel here would present a failing source as a regular end of the stream
+		if ev.Sentinel == "io.EOF" || ev.Sentinel == "smf.ErrFinished" {
+			return false, ""
+		}
 	}
 	if short == 0 {
 		return false, ""
